@@ -9,7 +9,7 @@ use serde_json::{json, Value};
 
 use crate::{engine::*, fsalpha::*, fsapply::*, fstypes::*, strgen::*};
 
-const ALPHA: &[&str] = &["/", ".", "~", "$", ":", "{", "}", " ", "a", "é", "日", "😀", "\n", "\0", "-", "%", "*", "\\", "\""];
+const ALPHA: &[&str] = &["/", ".", "~", "$", ":", "{", "}", " ", "a", "é", "日", "😀", "\n", "\0", "-", "%", "*", "\\", "\"", "İ", "\u{212a}", "A"];
 
 fn populate(m: &Memfs) {
     let _ = m.mkdir_m("/a/b", 0o750);
@@ -249,7 +249,7 @@ fn offsets() -> impl Strategy<Value = i64> {
 }
 
 pub fn run(c: &Ctx) {
-    c.set_rule("(a) every single-path call form of the Memfs alphabet (52 forms: all trait methods, builder variants, handles) on every string over a 19-symbol adversarial alphabet ('/', '.', '~', '$', ':', '{', '}', space, a, 2/3/4-byte chars, newline, NUL, '-', '%', '*', backslash, quote) up to length 2 (quick) / 3 (thorough), from a fresh and from a populated instance (links, loop link, dangling link, non-UTF-8 bytes, cwd below root); two-path forms on all pairs of strings up to length 1 plus specials; seeded random arguments (<=64 symbols, 4 KiB names, 2000-deep '..' chains, any u32 mode / id). After EVERY call: no panic, call returned (CPU watchdog), C03 invariants on the dump, and a probe sequence on the same instance (mkdir_p, write_all, read_all, remove_all, exists) succeeds. (b) every public path helper, StringExt/ToStringExt/IteratorExt/PeekableExt/OptionExt function and user:: getter on the same strings (totality only). (c) read handles driven by seek/read scripts with extreme offsets. (d) every program of length 4 (quick) / 5 (thorough) over 15 forms {open write/append handle, write, flush, drop, remove / remove_all / move_p / replace-by-directory / replace-by-link of the handle's file, set_cwd} on the populated instance: handles that outlive their file must neither panic nor hang nor wedge the instance (probe after every step and after the final drops). Non-trivial = argument with a multi-byte character or >=2 special symbols; distinct by (function, argument).");
+    c.set_rule("(a) every single-path call form of the Memfs alphabet (52 forms: all trait methods, builder variants, handles) on every string over a 22-symbol adversarial alphabet (incl. 'İ' and the Kelvin sign, whose lower-case forms have another byte length, and an upper-case letter) ('/', '.', '~', '$', ':', '{', '}', space, a, 2/3/4-byte chars, newline, NUL, '-', '%', '*', backslash, quote) up to length 2 (quick) / 3 (thorough), from a fresh and from a populated instance (links, loop link, dangling link, non-UTF-8 bytes, cwd below root); two-path forms on all pairs of strings up to length 1 plus specials; seeded random arguments (<=64 symbols, 4 KiB names, 2000-deep '..' chains, any u32 mode / id). After EVERY call: no panic, call returned (CPU watchdog), C03 invariants on the dump, and a probe sequence on the same instance (mkdir_p, write_all, read_all, remove_all, exists) succeeds. (b) every public path helper, StringExt/ToStringExt/IteratorExt/PeekableExt/OptionExt function and user:: getter on the same strings (totality only). (c) read handles driven by seek/read scripts with extreme offsets. (d) every program of length 4 (quick) / 5 (thorough) over 15 forms {open write/append handle, write, flush, drop, remove / remove_all / move_p / replace-by-directory / replace-by-link of the handle's file, set_cwd} on the populated instance: handles that outlive their file must neither panic nor hang nor wedge the instance (probe after every step and after the final drops). (e) every call form at the top, middle and bottom of a 60-level directory chain (deeper than the traversal's descriptor cap) that ends in an empty directory and a file. Non-trivial = argument with a multi-byte character or >=2 special symbols; distinct by (function, argument).");
     c.assume("non-UTF-8 OsStr paths are outside the stated domain");
     let max_len = c.tier.pick(2, 3);
     let strings = all_strings(ALPHA, max_len);
@@ -395,6 +395,36 @@ pub fn run(c: &Ctx) {
                 c.sample(|| json!({"kind":"fs-handles","ops":prog}));
             }
             c.judge("fs-handles", &prog, check_fs_handles(&prog));
+        });
+    }
+    // (e) a directory chain deeper than the traversal's descriptor cap (50) with an empty directory and a file at
+    // the bottom: every call form at the top, the middle and the bottom of the chain
+    {
+        let mut chain = String::new();
+        for i in 0..60 {
+            chain.push_str(&format!("/n{}", i % 3));
+        }
+        let mid: String = chain.split('/').take(31).collect::<Vec<_>>().join("/");
+        let setup = vec![Op::MkdirP(format!("{}/empty", chain)), Op::WriteAll(format!("{}/leaf", chain), b"x".to_vec())];
+        let mut progs: Vec<Vec<Op>> = vec![];
+        for p in ["/n0", mid.as_str(), chain.as_str(), "/"] {
+            for op in single_path_ops(p, true) {
+                let mut v = setup.clone();
+                v.push(op);
+                progs.push(v);
+            }
+            for op in two_path_ops(p, "/elsewhere", true).into_iter().chain(two_path_ops("/n0", &format!("{}/into", p), false)) {
+                let mut v = setup.clone();
+                v.push(op);
+                progs.push(v);
+            }
+        }
+        par_for(progs.len() as u64, 4, |i| {
+            let ops = &progs[i as usize];
+            c.eval(1);
+            c.nontrivial(fp(&("deep-chain", i)));
+            c.class("deep-chain:beyond-descriptor-cap");
+            c.judge("fs", &json!({"populated": false, "ops": ops}), check_fs(&FsCase { populated: false, ops: ops.clone() }));
         });
     }
     run_proptest("helpers", 1202, || (string_over(ADVERSARIAL, 40), string_over(ADVERSARIAL, 12)), cases, |(s, t): &(String, String)| {
